@@ -160,7 +160,98 @@ def rule_d(ctx):
         ctx.ob("sync-caller|%s" % fn, ok, "Clock::synchronize may only be called by the stepping function, the final jump and SimInit::init", [s])
 
 
+def rule_e(ctx):
+    """configuration plumbing: the tolerance / clock given to the builder are the ones the simulation uses."""
+    P = ctx.prog
+    init = ctx.body("simulation::sim_init::SimInit::init")
+    if not init:
+        return
+    news = list(init.calls("^simulation::Simulation::new$"))
+    if len(news) != 1:
+        return ctx.missing("Simulation::new in SimInit::init")
+    nw = news[0]
+    tys = nw.node.get("argtys", [])
+    want = {"clock": None, "tolerance": None, "timeout": None}
+    for i, t in enumerate(tys):
+        if t.startswith("std::boxed::Box<dyn time::clock::Clock"):
+            want["clock"] = i
+        elif t == "std::option::Option<std::time::Duration>":
+            want["tolerance"] = i
+        elif t == "std::time::Duration":
+            want["timeout"] = i
+
+    def path_of(os_):
+        out = set()
+        for o in os_:
+            rt, names = origin_proj_names(o)
+            if rt == ("arg", 1) and names and all(n[0] == "f" for n in names):
+                out.add(tuple(n[1] for n in names))
+        return out
+
+    paths = {}
+    for k, i in want.items():
+        if i is None:
+            ctx.missing("argument `%s` of Simulation::new" % k)
+            continue
+        ps = path_of(init.origins(nw.args()[i], nw))
+        ctx.ob("init-passes-configured-%s" % k, len(ps) == 1, "SimInit::init hands the configured %s (a field of the builder) to the simulation" % k, [nw])
+        if len(ps) == 1:
+            paths[k] = next(iter(ps))
+    # the clock that init synchronises on is the same one
+    for s in init.calls(K.CLOCK_SYNC):
+        co = path_of(frozenset(origin_proj_names(o)[0] if False else o for o in init.origins(s.args()[0], s)))
+        if "clock" in paths:
+            ctx.ob("init-synchronises-configured-clock", paths["clock"] in co, "init synchronises on the configured clock", [s])
+    # writers of each configured path (or of a prefix / extension of it) among the builder's methods
+    methods = [b for b in P.all_bodies() if b.impl_self == "simulation::sim_init::SimInit" and b.impl_trait is None and b.kind == "AssocFn"]
+    writers = {k: set() for k in paths}
+    wsites = {k: [] for k in paths}
+    for b in methods:
+        for s in b.assigns():
+            pl = s.node["p"]
+            if not pl["p"]:
+                continue
+            dest = path_of(b.place_origins(pl, s))
+            for d in dest:
+                for k, pth in paths.items():
+                    if d[:len(pth)] == pth or pth[:len(d)] == d:
+                        writers[k].add(b.name)
+                        wsites[k].append(s)
+    setters = {"clock": "simulation::sim_init::SimInit::set_clock", "tolerance": "simulation::sim_init::SimInit::set_clock_tolerance",
+               "timeout": "simulation::sim_init::SimInit::set_timeout"}
+    for k in paths:
+        ok = writers[k] <= {setters[k]} and (setters[k] in writers[k])
+        ctx.ob("only-own-setter-writes-%s" % k, ok,
+               "after construction the configured %s is written only by %s (another setter overwriting it would silently drop the "
+               "configuration); writers: %s" % (k, last_seg(setters[k]), sorted(writers[k])), wsites[k])
+    # the setter stores its argument
+    st = P.body(setters["tolerance"])
+    if st is not None and "tolerance" in paths:
+        ok = False
+        for s in st.assigns():
+            if path_of(st.place_origins(s.node["p"], s)) == {paths["tolerance"]} and s.node["r"]["r"] == "use":
+                vo = st.origins(s.node["r"]["o"], s)
+                for o in vo:
+                    if o[0] == "agg" and o[4] == "Some":
+                        a = Site(st, o[1], o[2])
+                        if st.origins(a.node["r"]["ops"][0], a) == frozenset([("arg", 2)]):
+                            ok = True
+        ctx.ob("set-clock-tolerance-stores-some", ok, "set_clock_tolerance stores Some(tolerance)", [st.loc()])
+    # Simulation::new stores its parameters in the fields the stepping function reads
+    sn = P.body("simulation::Simulation::new")
+    if sn is not None:
+        aggs = list(sn.aggregates(adt="simulation::Simulation"))
+        ok = len(aggs) == 1
+        if ok:
+            fo = dict(zip(aggs[0].node["r"]["fields"], aggs[0].node["r"]["ops"]))
+            for fld, k in (("clock", "clock"), ("clock_tolerance", "tolerance"), ("timeout", "timeout")):
+                o = sn.origins(fo[fld], aggs[0]) if fld in fo else frozenset()
+                ok = ok and want[k] is not None and o == frozenset([("arg", want[k] + 1)])
+        ctx.ob("simulation-new-stores-configuration", ok, "Simulation::new stores clock, tolerance and timeout in the fields used by stepping", aggs)
+
+
 RULES = [
+    ("C18.e", "the configured clock and tolerance reach the stepping function unchanged", rule_e),
     ("C18.a", "stepping fn: write < unlock < synchronize(written) < run; OutOfSync iff lag > tolerance", rule_a),
     ("C18.b", "final jump: write(target) < synchronize(target), once", rule_b),
     ("C18.c", "init: write(start) < synchronize(start) < run", rule_c),
